@@ -46,6 +46,8 @@ op = st.one_of(
     st.tuples(st.just("send"), slot, st.sampled_from([0, 3, 20, 300, 2000]), st.sampled_from([0, 1, -1])),
     st.tuples(st.just("burst"), slot, st.integers(2, 6), st.sampled_from([0, 1, -1])),
     st.tuples(st.just("connect-many"), st.lists(slot, min_size=2, max_size=4, unique=True)),
+    st.tuples(st.just("kick-on-disconnect"), slot),      # the handler's next disconnect event kicks that other client
+    st.tuples(st.just("connect-sending"), slot, st.integers(1, 3)),   # the client sends from inside its connect callback
     st.tuples(st.just("ssend"), slot, st.sampled_from([0, 3, 20, 300, 2000]), st.sampled_from([0, 1, -1])),
     st.tuples(st.just("disconnect"), slot),
     st.tuples(st.just("silent"), slot),
@@ -83,6 +85,7 @@ class Automaton(object):
         self.shutdown_requested = False
         self.delivered = []    # (t, src, data) handed to the entry point
         self.n_connect = 0
+        self.kick_on_disconnect = None   # addr to kick from inside the next disconnect event
         self.watches = {}      # id(client obj) -> ConnWatch (observation only), attached at the connect event
         self.handled = {}      # id(client obj) -> set of message seqnums handed to handle_message
 
@@ -118,6 +121,8 @@ class Automaton(object):
             if w.ctxt.connections.get(c.addr) is not c:
                 ctx.violation("connect-object-mismatch", "connected object is not the one in the connection pool")
             self.watches[k] = W.ConnWatch(c, w.clock)
+            self.connect_time = getattr(self, "connect_time", {})
+            self.connect_time[k] = e["t"]
         elif ev == "message":
             self.handled.setdefault(k, set()).add(e["seqnum"])
             if stt != "connected":
@@ -130,6 +135,12 @@ class Automaton(object):
             elif stt == "disconnected":
                 ctx.violation("disconnect-twice", "second disconnect for %s" % (e["addr"],))
             self.state[k] = "disconnected"
+            if self.kick_on_disconnect is not None:
+                victim = w.ctxt.connections.get(self.kick_on_disconnect)
+                self.kick_on_disconnect = None
+                if victim is not None and victim is not c:
+                    self.sdisc.add(id(victim))
+                    victim.disconnect()        # a server-initiated disconnect issued from inside a handler event
             silent_for = e["t"] - c.last_recv_time
             justified = (k in self.sdisc or c.addr in self.cdisc or self.shutdown_requested
                          or silent_for >= w.ctxt.connection_timeout - 1e-9)
@@ -165,6 +176,7 @@ def body(ctx, c):
             if ev != "starting":
                 w.raise_plan[ev] = [0]
                 flags.add("exception")
+        silent_since = {}     # id(ClientH) -> instant its process stopped (harness-side knowledge)
         slots = [None] * NSLOTS
         addrs = [("10.1.0.%d" % (i + 1), 5000 + i) for i in range(NSLOTS)]
         uid = [0]
@@ -202,6 +214,24 @@ def body(ctx, c):
                     slots[k] = w.add_client(laddr=addrs[k])
                     slots[k].connect()
                     step(4)
+            elif name == "kick-on-disconnect":
+                auto.kick_on_disconnect = addrs[o[1]]
+                flags.add("kick-from-disconnect-event")
+            elif name == "connect-sending":
+                k = o[1]
+                if slots[k] is None or not slots[k].alive:
+                    chh = slots[k] = w.add_client(laddr=addrs[k])
+                    n_msgs = o[2]
+
+                    def on_connected(ok, chh=chh, n_msgs=n_msgs):
+                        if ok:
+                            for _ in range(n_msgs):
+                                uid[0] += 1
+                                chh.send(W.payload_for(uid[0], 16), retry=0, callback=False)
+                    chh.udp.connect(w.server_addr, on_connected)
+                    chh._note_status()
+                    flags.add("messages-with-challenge-response")
+                    step(4)
             elif name == "connect-many":
                 fresh = [k for k in o[1] if slots[k] is None or not slots[k].alive]
                 for k in fresh:
@@ -226,6 +256,8 @@ def body(ctx, c):
                         flags.add("reconnect-while-old-session-alive")
                     else:
                         flags.add("reconnect-after-session-ended")
+                    if old.alive:
+                        silent_since[id(old)] = w.clock.t
                     old.alive = False          # the old process is gone: nobody reads its socket any more
                     slots[k] = w.add_client(laddr=addrs[k])
                     slots[k].connect()
@@ -252,6 +284,7 @@ def body(ctx, c):
                 k = o[1]
                 if live(k):
                     slots[k].alive = False
+                    silent_since[id(slots[k])] = w.clock.t
             elif name == "sdisc":
                 k = o[1]
                 conn = w.ctxt.connections.get(addrs[k])
@@ -310,10 +343,18 @@ def body(ctx, c):
                 conn = w.ctxt.connections.get(addrs[k])
                 if conn is not None and w.ledger.n_delivered(("s", addrs[k]), pl) < 1 and slots[k].connected():
                     ctx.violation("events-stopped-flowing", "a guaranteed message from connected client %s was not handed to the handler within 1.5 s on a loss-free link" % (addrs[k],))
-            # silence must have been detected for clients that went silent long ago
+            # silence must have been detected for clients that went silent long ago (judged on the harness's own knowledge
+            # of when the client process stopped, not on the server's bookkeeping)
             for addr, conn in list(w.ctxt.connections.items()):
                 if w.clock.t - conn.last_recv_time >= w.ctxt.connection_timeout + 3 * dt:
                     ctx.violation("silent-client-not-dropped", "%s silent for %.2f s (timeout %.1f) is still connected" % (addr, w.clock.t - conn.last_recv_time, w.ctxt.connection_timeout))
+            for chh in w.clients:
+                t_s = silent_since.get(id(chh))
+                conn = w.ctxt.connections.get(chh.laddr)
+                if t_s is not None and conn is not None and chh.key is not None and conn.session_key_bytes == chh.key \
+                        and w.clock.t - t_s >= w.ctxt.connection_timeout + 0.3:
+                    ctx.violation("silent-client-not-dropped", "the client process at %s stopped %.2f s ago (timeout %.1f) but its session is still connected" % (
+                        chh.laddr, w.clock.t - t_s, w.ctxt.connection_timeout))
             auto.shutdown_requested = True
             w.ctxt.shutdown()
             step(3)
@@ -331,6 +372,10 @@ def body(ctx, c):
             if k in auto.sdisc:
                 continue     # a server-side disconnect legitimately discards what was queued
             for mseq, recs in watch.messages.items():
+                # messages that travelled WITH the challenge response are queued by the hand-off and handed over with the
+                # client's next datagram; whether they must arrive at all is not stated by the property: not judged
+                if recs[0][0] <= auto.connect_time.get(k, -1) + 1e-9:
+                    continue
                 if any(r[4] == W.T_APP for r in recs) and mseq not in auto.handled.get(k, ()):
                     ctx.violation("accepted-message-not-handled", "client %s: application message seq %d was accepted by its connection (t=%.3f) but never reached handle_message" % (
                         auto.objs[k].addr, mseq, recs[0][0]))
